@@ -482,6 +482,18 @@ def stage_binding(cx):
                     order = [k for k, _ in e.hosts() if k in e.paths_at]
                     second = h2 if order.index(h2) > order.index(h) else h
                     cases.append(("duplicate-prefix", e, ("reject", "has already been defined earlier", ("path", second))))
+                    # the same fault when the declarations arrive through a type: every Path body a `Path @type` shortcut, or the
+                    # body of one of the two an object that inherits the property (allOf)
+                    e2 = BDoc(d.layout)
+                    e2.paths_at = {k: list(v) for k, v in e.paths_at.items()}
+                    e2.by_type = True
+                    cases.append(("duplicate-prefix-through-type", e2, ("reject", "has already been defined earlier", ("path", second))))
+                    for hx in (h, h2):
+                        e3 = BDoc(d.layout)
+                        e3.paths_at = {k: list(v) for k, v in e.paths_at.items()}
+                        e3.body_override[hx] = '{ // {allOf: "@inh_%s"}\n}' % name.replace(".", "_").replace("-", "_")
+                        e3.extra_types = {"@inh_%s" % name.replace(".", "_").replace("-", "_"): "{\n" + ",\n".join('  "%s": 1' % x for x in e.paths_at[hx]) + "\n}"}
+                        cases.append(("duplicate-prefix-through-allof", e3, ("reject", "has already been defined earlier", ("path", second))))
             for body, needle in (("[1]", None), ("1", None), ('{\n  "%s": {"k": 1}\n}' % names[0], None), ("{}", None),
                                  # structured VALUES under a rule that gives them another type name: the value is still not flat
                                  ('{\n  "%s": {} // {type: "any"}\n}' % names[0], None), ('{\n  "%s": [] // {type: "any"}\n}' % names[0], None),
@@ -504,7 +516,9 @@ def stage_binding(cx):
             cases.append(("bad-path", e, ("reject", needle, ("dir", ("U", i) if it[0] == "URL" else ("M", i)))))
     # a property typed by a user type that is only another name for an object / array type: the path variable would not be flat
     for alias_body, target in (("@deep", '{\n  "k": 1\n}'), ("@deep", "[1]"), ("@deep | @deep", '{\n  "k": 1\n}')):
-        for spell in ('"x": @alias', '"x": 1 // {type: "@alias"}', '"x": 1 // {or: ["@alias", "integer"]}'):
+        for spell in ('"x": @alias', '"x": 1 // {type: "@alias"}', '"x": 1 // {or: ["@alias", "integer"]}',
+                      # the rule-set form of `or`: the reference sits on the "type" member of an inline rule set
+                      '"x": 1 // {or: [{type: "@alias"}, {type: "integer"}]}', '"x": 1 // {or: [{type: "integer"}, {type: "@alias"}]}'):
             e = BDoc([("URL", "/a/{x}", ["GET"])])
             e.body_override[("U", 0)] = "{\n  %s\n}" % spell
             e.extra_types = {"@alias": alias_body, "@deep": target}
